@@ -1,7 +1,7 @@
 (** C16 - evaluations are deterministic and isolated from one another. The model has no hidden state: every public
     operation is a function of (registrations so far, the context passed in, the program); the theorems say which part of the
     state each operation can touch. The force of the check comes from the correspondence with the impl. *)
-From EE Require Import Chars OpTable Decimal Ast Value Names Lexer Parser Eval EvalLemmas ExecInv.
+From EE Require Import Chars OpTable Decimal Ast Value Names Lexer Parser Eval EvalLemmas ExecInv ExecRel Isolation.
 Open Scope N_scope.
 
 Section C16.
@@ -60,8 +60,53 @@ Proof.
   - intros st n cfg h E. exact E.
 Qed.
 
+(* the result depends only on the text, the registrations and handlers, and the contents of the contexts the evaluation
+   can reach: two states that agree on those (`iso`: same registrations, scripts, lock sets, and every context except d)
+   give every program evaluated on a context other than d the same result, and final states that agree in the same way -
+   whatever the program and the handlers do, provided no handler evaluates on d. With cnt = false the two call histories
+   may differ arbitrarily (earlier evaluations are invisible), provided no handler counts its own invocations. *)
+Theorem C16_unrelated_state_is_invisible : forall cnt d SC s c st st',
+  scripts_ok (other_than d) cnt SC -> c <> d -> iso cnt d SC st st' ->
+  fst (run_exec b s c st) = fst (run_exec b s c st') /\
+  iso cnt d SC (snd (run_exec b s c st)) (snd (run_exec b s c st')).
+Proof.
+  intros cnt d SC s c st st' OK Hc H. apply iso_run_exec; try assumption.
+  unfold other_than. destruct (N.eqb_spec c d); [contradiction | reflexivity].
+Qed.
+
+(* the same for an AST that is evaluated again (ExprAST::exec), at every re-entry depth *)
+Theorem C16_ast_reevaluation : forall cnt d SC f e c st st',
+  scripts_ok (other_than d) cnt SC -> c <> d -> iso cnt d SC st st' ->
+  fst (exec_fuel b f e c st) = fst (exec_fuel b f e c st') /\
+  iso cnt d SC (snd (exec_fuel b f e c st)) (snd (exec_fuel b f e c st')).
+Proof.
+  intros cnt d SC f e c st st' OK Hc H. apply iso_exec_fuel; try assumption.
+  unfold other_than. destruct (N.eqb_spec c d); [contradiction | reflexivity].
+Qed.
+
 End C16.
 Print Assumptions C16_other_contexts_untouched.
 Print Assumptions C16_parse_pure.
 Print Assumptions C16_parse_deterministic.
 Print Assumptions C16_assignment_frame.
+Print Assumptions C16_unrelated_state_is_invisible.
+Print Assumptions C16_ast_reevaluation.
+
+(* the hypotheses are satisfiable by states that really differ: another context holds a binding in one state and not in the
+   other, the call histories differ, and a handler evaluates on a third context *)
+Definition c16_scripts : list (hid * script) := [(7, SSeq (AcExec [49] 1) (SRet VNone))].
+Definition c16_state (ctx2 : context) (log : list (hid * list value)) : state :=
+  {| s_inited := false; s_regs := {| r_infix := []; r_prefix := []; r_postfix := []; r_func := [] |};
+     s_ctxs := [(2, ctx2); (1, [([120], CVar (VBool true))])]; s_scripts := c16_scripts; s_log := log;
+     s_held := []; s_poisoned := []; s_inexact := false |}.
+Example C16_iso_example :
+  scripts_ok (other_than 2) false c16_scripts /\
+  iso false 2 c16_scripts (c16_state [([121], CVar VNone)] [(7, [])]) (c16_state [] []).
+Proof.
+  split.
+  - intros h s. unfold c16_scripts. cbn [nassoc]. destruct (h =? 7); [|discriminate]. intros E. inversion E. reflexivity.
+  - constructor; try reflexivity; try discriminate.
+    intros c Hc. unfold other_than in Hc. unfold ctx_of, c16_state. cbn [s_ctxs nassoc].
+    destruct (c =? 2); [discriminate Hc | reflexivity].
+Qed.
+Print Assumptions C16_iso_example.
